@@ -280,7 +280,7 @@ pub fn query_has_member(
     }
 
     Ok(HasMemberResponse {
-        has_member: merkle_root == hex::encode(final_hash.unwrap()),
+        has_member: merkle_root.eq_ignore_ascii_case(&hex::encode(final_hash.unwrap())),
     })
 }
 
